@@ -200,6 +200,20 @@ def eval_ops(t, reader):
     raise AssertionError(k)
 
 
+def lean_pow_safe(text):
+    """every power in the op tree has a non-negative integer literal as exponent (the Int-valued Lean evaluation is exact then)"""
+    def ok(t):
+        if t[0] == 'pow':
+            return t[2][0] == 'i' and t[2][1] >= 0 and ok(t[1])
+        if t[0] in ('add',): return all(ok(a) for _, a in t[1])
+        if t[0] in ('mul',): return all(ok(a) for a in t[1])
+        return all(ok(x) for x in t[1:] if isinstance(x, tuple))
+    try:
+        return ok(parse_ops(text))
+    except ValueError:
+        return False
+
+
 def close(real, want):
     """real float array vs exact object array"""
     real = numpy.asarray(real)
@@ -306,6 +320,8 @@ def real_eval_v2(world, s, how, target):
             return ('attr', str(e))
         return ('exc', 'AttributeError', str(e)[:80])
     except Exception as e:
+        if isinstance(e, AssertionError) and 'power=' in str(e):
+            return ('exc', 'ZeroDivisionError', 'integer to a negative integer power: NumPy semantics of the evaluation')   # treated like a degenerate value
         return ('exc', type(e).__name__, str(e)[:80])
     return ('value', val)
 
@@ -363,7 +379,7 @@ def semantic_stream(c, world, cases, answers, rng, lean_eval=None):
             except (G.Degenerate, G.Reject, ZeroDivisionError, OverflowError):
                 model_val = ('skip',)
             # the Lean tensor semantics `evalOps` (object of trace_sem / term_reading) on the same integer data
-            if lean_eval is not None and model_val[0] == 'value' and not any(u in f[1] for u in ('div(', 'f(', 'i(-', 'c(opposite', 'c(real', 'c(conj')):
+            if lean_eval is not None and model_val[0] == 'value' and not any(u in f[1] for u in ('div(', 'f(', 'i(-', 'c(opposite', 'c(real', 'c(conj')) and lean_pow_safe(f[1]):
                 le = lean_eval.get(s)
                 if le is not None and le.startswith('ok|'):
                     _, lshape, lind, lvals = le.split('|')
@@ -677,7 +693,12 @@ class V1World:
             if 'no longer supported' in str(e): return ('syntax', 'legacy syntax: ' + str(e)[:60])   # deliberate rejection of removed v1 syntax
             return ('exc', 'SyntaxError', str(e)[:80])
         except Exception as e:
-            return ('exc', type(e).__name__, str(e)[:80])
+            msg = str(e)
+            if isinstance(e, AssertionError) and 'power=' in msg:
+                return ('degenerate', 'integer to a negative integer power (NumPy semantics of the evaluation, not of the expression)')
+            if (isinstance(e, TypeError) and 'unexpected keyword argument' in msg) or (isinstance(e, ValueError) and 'expected an array with shape' in msg):
+                return ('degenerate', 'the harness-defined v1 function is called with generates/consumes it does not implement')
+            return ('exc', type(e).__name__, msg[:80])
         return ('value', val)
 
 
